@@ -246,4 +246,35 @@ theorem srel_run (S : Sem T PJ X V A) (c : SabaConfig) (hk : c.keep = true) (hs 
     | setRecalc => simp [Op.benign] at ho
     | poke v => simp [Op.benign] at ho
 
+def Op.notSetRecalc {X} : Op X → Bool | .setRecalc => false | _ => true
+
+theorem srel_poke (S : Sem T PJ X V A) (c : SabaConfig) (v : X × V) {x y : Flags × St PJ X V A}
+    (h : SRel x y) : SRel (sabaApply S c (.poke v) x) (sabaApply S c (.poke v) y) :=
+  ⟨⟨h.1.1, h.1.2.1, fun _ => ⟨rfl, rfl⟩⟩, h.2⟩
+
+/-- SABA: the interleaving theorem with particle edits in the alphabet (not `setRecalc`: SABA
+    recalculates from unsynchronised particles, see `SRel`) -/
+theorem srel_run_all (S : Sem T PJ X V A) (c : SabaConfig) (hk : c.keep = true) (hs : c.safe = false)
+    (σ : List (Op (X × V))) (hσ : ∀ o ∈ σ, Op.notSetRecalc o = true) (x y : Flags × St PJ X V A)
+    (h : SRel x y) : SRel (sabaRun S c σ x) (sabaRun S c (σ.filter Op.isKept) y) := by
+  induction σ generalizing x y with
+  | nil => exact h
+  | cons o os ih =>
+    have hos : ∀ o ∈ os, Op.notSetRecalc o = true := fun o ho => hσ o (List.mem_cons_of_mem _ ho)
+    have ho := hσ o List.mem_cons_self
+    cases o with
+    | step =>
+      simp only [List.filter, Op.isKept, sabaRun]
+      exact ih hos _ _ (srel_step S c hs h)
+    | synchronize =>
+      simp only [List.filter, Op.isKept, sabaRun]
+      exact ih hos _ _ ((srel_sync S c hk x h.2).symm.trans h)
+    | read =>
+      simp only [List.filter, Op.isKept, sabaRun]
+      exact ih hos _ _ h
+    | setRecalc => simp [Op.notSetRecalc] at ho
+    | poke v =>
+      simp only [List.filter, Op.isKept, sabaRun]
+      exact ih hos _ _ (srel_poke S c v h)
+
 end RV.Sync
